@@ -1,13 +1,13 @@
 SPECIFICATION Spec
 CONSTANTS
- MaxUpdates = 0
+ MaxUpdates = 2
  MaxReinit = 0  FixLostWorker = TRUE
  CountCalls = TRUE
  NW = 2  BS = 2  Total = 2  Chunk = 1  HdrSz = 1  TailSz = 2
  Timeout = FALSE  Spurious = FALSE  MayFail = FALSE
  Gives = {0, 1, 100}  Spaces = {0, 1, 100}
  FlushActs = {"FULL_BARRIER"}
- MaxCalls = 5
+ MaxCalls = 4
 CONSTRAINT CallBound
 VIEW MCView
-INVARIANTS OrderedOutput BlocksPartitionInput BoundariesOnlyWhereRequested FlushCompletes BarrierCompletes FinishCompletes ProgressTruthful BufErrorOnlyWhenStarved DocumentedCodes QueueBound EndJoinsAll
+INVARIANTS OrderedOutput BlocksPartitionInput BoundariesOnlyWhereRequested FlushCompletes BarrierCompletes FinishCompletes ProgressTruthful BufErrorOnlyWhenStarved DocumentedCodes QueueBound EndJoinsAll ChainTakesEffect
